@@ -415,6 +415,26 @@ fn emit_fn(out: &mut Value, req: &Value, sig: &Signature, block: &Block, impl_hd
             }
         }
     }
+    if let Some(pt_map) = req["param_types"].as_object() {
+        for a in sig_owned.inputs.iter_mut() {
+            if let FnArg::Typed(pt) = a {
+                let name = pt.pat.to_token_stream().to_string();
+                if let Some(t) = pt_map.get(&name) {
+                    *pt.ty = syn::parse_str::<Type>(t.as_str().unwrap()).expect("param_types type");
+                    extra_applied.push(json!({"rule": "N2-param-type-opaque", "line": sig.ident.span().start().line}));
+                }
+            }
+        }
+    }
+    // N19: `mut self` by value is unsupported by Verus: `fn f(mut self) { B }` => `fn f(self) { let mut hq_self = self; B[self := hq_self] }`
+    let mut rename_self = false;
+    if let Some(FnArg::Receiver(rc)) = sig_owned.inputs.first_mut() {
+        if rc.reference.is_none() && rc.mutability.is_some() {
+            rc.mutability = None;
+            rename_self = true;
+            extra_applied.push(json!({"rule": "N19-mut-self-by-value", "line": sig.ident.span().start().line}));
+        }
+    }
     let sig = &sig_owned;
     let (sig_txt, ret, shape) = sig_strings(sig);
     out["line"] = json!(sig.ident.span().start().line);
@@ -430,6 +450,26 @@ fn emit_fn(out: &mut Value, req: &Value, sig: &Signature, block: &Block, impl_hd
         return;
     }
     let mut b = block.clone();
+    if rename_self {
+        struct R;
+        impl VisitMut for R {
+            fn visit_expr_path_mut(&mut self, p: &mut ExprPath) {
+                if p.path.is_ident("self") {
+                    p.path = parse_quote!(hq_self);
+                }
+            }
+            fn visit_macro_mut(&mut self, m: &mut Macro) {
+                // `self` inside macro arguments (assert!, format!, ...)
+                let ts: TokenStream = m.tokens.clone().into_iter().map(|t| match t {
+                    proc_macro2::TokenTree::Ident(i) if i == "self" => proc_macro2::TokenTree::Ident(proc_macro2::Ident::new("hq_self", i.span())),
+                    o => o,
+                }).collect();
+                m.tokens = ts;
+            }
+        }
+        R.visit_block_mut(&mut b);
+        b.stmts.insert(0, parse_quote!(let mut hq_self = self;));
+    }
     let mut n = Norm::new(req);
     if sig.asyncness.is_some() {
         n.log("N10-async-without-await", sig.ident.span());
